@@ -163,6 +163,14 @@ func (c *trCtx) effectAssign(x *ast.AssignStmt, rest trCont) (string, bool, erro
 			return "", true, trErr("result of an effect assigned to the variable %s", id.Name)
 		}
 		c.vars[id.Name] = tyOpaque
+		if c.opaqueFrom == nil {
+			c.opaqueFrom = map[string]string{}
+		}
+		if eff != nil && eff.kind == "event" {
+			c.opaqueFrom[id.Name] = eff.name
+		} else {
+			c.opaqueFrom[id.Name] = exprText(c.fset, call.Fun)
+		}
 		c.noteAssigned(id.Name)
 		if _, ok := c.depth[id.Name]; !ok {
 			c.depth[id.Name] = c.cur
@@ -248,6 +256,10 @@ func hasBreak(list []ast.Stmt) bool {
 
 // errComposite: `&T{…}` / `T{…}` as an error value: the name of the type
 func (c *trCtx) errComposite(e ast.Expr) (string, bool) {
+	// `return err` with `err` the (single) result of an effect call: "error of <effect>"
+	if id, ok := e.(*ast.Ident); ok && c.vars[id.Name] == tyOpaque && c.assignCount[id.Name] <= 1 && c.opaqueFrom[id.Name] != "" {
+		return "(some " + strconv.Quote("error of "+c.opaqueFrom[id.Name]) + ")", true
+	}
 	if u, ok := e.(*ast.UnaryExpr); ok && u.Op == token.AND {
 		e = u.X
 	}
